@@ -68,6 +68,8 @@ THEOREMS = [
     "Verif.C01.chain_spec",
     "Verif.C01.chain_perm",
     "Verif.C01.chain_idem",
+    "Verif.C01.window_wf",
+    "Verif.C01.timeString_functional",
 ]
 RULE = (
     "corpus (F1, F6 inputs) + exhaustive small scope (n<=5 samples, dt in {1,2,3,5}, two starts, every window "
@@ -119,6 +121,9 @@ def build(case):
     channel, _ = _lk()
     k = case["kind"]
     if k == "cont":
+        if case.get("np"):
+            # as read from an HDF5 file: the start attribute is a NumPy scalar, the period a Python int
+            return channel.Slice(channel.Continuous(np.arange(case["n"]), np.int64(case["start"]), case["dt"]))
         return channel.Slice(channel.Continuous(np.arange(case["n"]), case["start"], case["dt"]))
     ts = np.array(case["ts"], dtype=np.int64)
     if k == "ts":
@@ -185,7 +190,8 @@ def make_item(a, b, via):
     if via == "calib":
         from lumicks.pylake.force_calibration.calibration_item import ForceCalibrationItem
 
-        return ForceCalibrationItem({"Start time (ns)": a, "Stop time (ns)": b})
+        # a missing key is how a calibration item without a start/stop time looks (`.get` gives None)
+        return ForceCalibrationItem({k: v for k, v in (("Start time (ns)", a), ("Stop time (ns)", b)) if v is not None})
     if via == "tagslice":
         # another channel slice used as the window (`force[photon_time_tags]`): its start/stop are the bounds
         channel, _ = _lk()
@@ -267,8 +273,9 @@ def impl(case):
     try:
         if k == "get":
             s = build(case)
+            npw = (lambda v: np.int64(v) if isinstance(v, int) else v) if case.get("np") else (lambda v: v)
             for (a, b), via in zip(case["windows"], case["via"]):
-                s = s[make_item(dec_bound(a), dec_bound(b), via)]
+                s = s[make_item(npw(dec_bound(a)), npw(dec_bound(b)), via)]
             ts = np.asarray(s.timestamps)
             data = np.asarray(s.data)
             if len(ts) != len(data):
@@ -749,6 +756,8 @@ def cases(tier, rng):
             has_none_or_str = any(x is None or isinstance(x, dict) for x in w)
             via.append(sub.choice(["slice", "slice", "obj", "marker", "calib", "tagslice"]))
         case.update({"stream": "random", "op": "get", "windows": windows, "via": via, "subseed": i})
+        if kind == "cont" and sub.chance(0.25):
+            case["np"] = True
         yield case
     # random chains of 1-3 items through the whole Slice.__getitem__ (windows with every kind of bound, masks,
     # rarely a step / scalar / non-number bound / invalid string)
@@ -882,6 +891,43 @@ def extra_coverage(results):
             n_out = 0 if a.endswith("[]") else a.count(",") + 1
             n_in = c["n"] if c["kind"] == "cont" else len(c["ts"])
             out_sizes["empty" if n_out == 0 else ("all" if n_out == n_in else "proper")] += 1
+    positions = {}
+    for r in results:
+        c = r["case"]
+        if c["op"] != "get" or len(c["windows"]) != 1 or c.get("unsorted"):
+            continue
+        ts = timestamps_of(c)
+        a, b = c["windows"][0]
+        if not ts:
+            pos = "empty-source"
+        elif not (isinstance(a, int) or a is None) or not (isinstance(b, int) or b is None):
+            pos = "time-string"
+        else:
+            lo = ts[0] if a is None else a
+            hi = ts[-1] + 1 if b is None else b
+            if lo > hi:
+                pos = "inverted"
+            elif lo == hi:
+                pos = "empty-window"
+            elif hi <= ts[0]:
+                pos = "before"
+            elif lo > ts[-1]:
+                pos = "after"
+            elif lo <= ts[0] and hi > ts[-1]:
+                pos = "covering"
+            elif lo <= ts[0]:
+                pos = "overlap-left"
+            elif hi > ts[-1]:
+                pos = "overlap-right"
+            else:
+                pos = "inside"
+            if c["kind"] == "cont" and isinstance(a, int) and isinstance(b, int):
+                dt = c["dt"]
+                pos += "/" + ("on" if (a - c["start"]) % dt == 0 else "off") + "-" + ("on" if (b - c["start"]) % dt == 0 else "off") + "-grid"
+            if None in (a, b):
+                pos += "/None"
+        key = f"{c['kind']}/{pos}"
+        positions[key] = positions.get(key, 0) + 1
     branches = {}
     for r in results:
         c = r["case"]
@@ -916,5 +962,5 @@ def extra_coverage(results):
                 "/trailing-newline" if st.endswith("\n") else "")
         parse_branches[key] = parse_branches.get(key, 0) + 1
     return {"case_kinds": kinds, "error_kinds": errs, "result_sizes": out_sizes, "getitem_branches": branches,
-            "parse_branches": parse_branches, "exhaustive": False,
+            "parse_branches": parse_branches, "window_positions": positions, "exhaustive": False,
             "exhaustive_note": "the small-scope stream enumerates its finite space completely; the random streams do not"}
